@@ -90,12 +90,12 @@ impl Property for C01 {
         vec![
             "is_a graph acyclic, parents exist, one name per id (domain of every construction path)".into(),
             "term ids < 10^7 (arena size); obo stanzas separated by exactly one blank line".into(),
-            "bounds: <= 40 terms quick / 120 thorough (ancestor sets beyond the 30 ids a group stores inline occur in both tiers)".into(),
+            "bounds: <= 72 terms quick / 130 thorough (ancestor sets beyond the 30 ids a group stores inline occur in both tiers)".into(),
         ]
     }
     fn cases(&self, tier: Tier) -> u64 {
         match tier {
-            Tier::Quick => 120_000,
+            Tier::Quick => 70_000,
             Tier::Thorough => 1_500_000,
         }
     }
@@ -103,7 +103,7 @@ impl Property for C01 {
         vec!["nontrivial", "ancestors>30", "parents>30", "children>30", "records>255", "diamond", "multiroot", "detached", "id0", "id9999999"]
     }
     fn run_generated(&self, tier: Tier, seed: u64, n: u64, stats: &mut Stats) -> Option<(Value, Failure)> {
-        let max = if tier == Tier::Quick { 40 } else { 120 };
+        let max = if tier == Tier::Quick { 72 } else { 130 };
         run_typed(ont_case_strategy(max, 4, false), seed, n, stats, check)
     }
     fn replay(&self, case: &Value, stats: &mut Stats) -> Result<CheckResult, String> {
